@@ -6,6 +6,7 @@ package vsync
 
 import (
 	"sync"
+	"sync/atomic"
 	"unsafe"
 )
 
@@ -33,15 +34,24 @@ type (
 
 type RWMutex struct{ mu sync.RWMutex }
 
+// held counts the read and write locks of all shim mutexes that are currently held (a sequential harness can
+// assert that it is zero between operations: a lock leaked on an error path is otherwise only seen as a hang).
+var held int64
+
+// Held returns the number of shim locks currently held.
+func Held() int64 { return atomic.LoadInt64(&held) }
+
 func (m *RWMutex) Lock() {
 	if h := Hook; h != nil {
 		h(OpLockAnnounce, uintptr(unsafe.Pointer(m)))
 		h(OpLockAcquire, uintptr(unsafe.Pointer(m)))
 	}
 	m.mu.Lock()
+	atomic.AddInt64(&held, 1)
 }
 
 func (m *RWMutex) Unlock() {
+	atomic.AddInt64(&held, -1)
 	m.mu.Unlock()
 	if h := Hook; h != nil {
 		h(OpUnlock, uintptr(unsafe.Pointer(m)))
@@ -53,9 +63,11 @@ func (m *RWMutex) RLock() {
 		h(OpRLock, uintptr(unsafe.Pointer(m)))
 	}
 	m.mu.RLock()
+	atomic.AddInt64(&held, 1)
 }
 
 func (m *RWMutex) RUnlock() {
+	atomic.AddInt64(&held, -1)
 	m.mu.RUnlock()
 	if h := Hook; h != nil {
 		h(OpRUnlock, uintptr(unsafe.Pointer(m)))
